@@ -115,6 +115,21 @@ func LinkKey(n int) enc.SharedKey {
 	return keys[n-1]
 }
 
+// LinkKeyBytes returns the raw 32 bytes of the n-th link key.
+func LinkKeyBytes(n int) []byte {
+	sum := sha256.Sum256([]byte(fmt.Sprintf("verif-linkkey-%d", n)))
+	return append([]byte(nil), sum[:]...)
+}
+
+// LinkIOFromBytes builds a link-encrypting codec from raw key bytes (a private copy is handed over).
+func LinkIOFromBytes(key []byte) iface.IO {
+	k, err := enc.NewSecretbox(append([]byte(nil), key...))
+	if err != nil {
+		panic(err)
+	}
+	return InitIO().ApplyOptions(&cbor.Options{LinkKey: k})
+}
+
 // LateWipeLinkIO builds the link-encrypting codec for key n from a caller-owned buffer and returns, with the
 // codec, the function by which the caller wipes that buffer LATER (after entries have been written with the
 // codec). The codec must keep working with the key it was given.
